@@ -31,11 +31,11 @@ RULE = ("op lines come from exhaustive enumeration of toy curves (every (p,a,b) 
         "distinct = distinct (stream, op line)")
 TRUSTED = [
     "ladders/entry points/constructors/number theory are hand-written models tied by correspondence (Model/C01/*.lean)",
-    "primality of the catalogued p and n is a hypothesis of the curve theorems (the code itself runs a Fermat base-2 test)",
+    "primality of secp256k1 p and n is proved (Pratt certificates); for the other catalogued curves it is a hypothesis of the curve theorems (the code itself runs a Fermat base-2 test)",
     "that the Jacobian formulas are the group law is Proofs/C01/JacRefine.lean (T1); the ladder theorems take it as "
     "the named hypothesis JacRel",
 ]
-ASSUMPTIONS = ["Nat.Prime p, Nat.Prime n for catalogued curves", "libsecp256k1 is compared, not verified"]
+ASSUMPTIONS = ["Nat.Prime p, Nat.Prime n for the catalogued curves other than secp256k1 (proved there)", "EndoLaw (GLV endomorphism law) for the secp256k1 route theorems", "libsecp256k1 is compared, not verified"]
 
 
 # ------------------------------------------------------------------ deterministic blinds
